@@ -92,6 +92,21 @@ FmtVars(c) ==
     [] c.fmt = "temperature" -> << [name |-> "SURFTEMP", s |-> 1, surf |-> TRUE], [name |-> "AIRTEMP", s |-> 2, surf |-> FALSE] >>
     [] c.fmt = "height_pressure" -> << [name |-> "HGHT", s |-> 1, surf |-> FALSE], [name |-> "PRES", s |-> 2, surf |-> FALSE] >>
 
+\* compact form for large grids: the data slab is one field [t |-> "g", s, tt, k]
+\* that the serialiser expands with the token rule (ny * nx floats)
+UamivStepC(c, t) ==
+  << << D(BeginOf(c, t)), Hr(BeginOf(c, t)), DE(EndOf(c, t)), HE(EndOf(c, t)) >> >>
+  \o FlattenSeq([s \in 1..Len(c.spc) |->
+        [k \in 1..c.nz |-> << I(1) >> \o A4(c.spc[s], 10) \o << [t |-> "g", s |-> s, tt |-> t, k |-> k] >>]])
+LayoutC(c) == UamivHeader(c) \o FlattenSeq([t \in 1..c.nt |-> UamivStepC(c, t)])
+\* sizes of the uamiv layout in closed form (checked against the grammar by
+\* CamxLayout_MC on every small configuration)
+UamivHeaderBytesA(c) == (76 * 4 + 8) + (15 * 4 + 8) + (4 * 4 + 8) + (40 * Len(c.spc) + 8)
+UamivRecBytesA(c) == (11 + c.nx * c.ny) * 4 + 8
+UamivBlockBytesA(c) == 24 + Len(c.spc) * c.nz * UamivRecBytesA(c)
+UamivFileBytesA(c) == UamivHeaderBytesA(c) + c.nt * UamivBlockBytesA(c)
+CompleteStepsA(c, n) == IF n < UamivHeaderBytesA(c) THEN 0 ELSE (n - UamivHeaderBytesA(c)) \div UamivBlockBytesA(c)
+
 Layout(c) ==
   CASE c.fmt = "uamiv" -> UamivHeader(c) \o FlattenSeq([t \in 1..c.nt |-> UamivStep(c, t)])
     [] c.fmt \in MetFmts -> FlattenSeq([t \in 1..c.nt |-> MetStep(c, t)])
@@ -137,6 +152,7 @@ ConcreteWord(fld, h24) ==
     [] fld.t = "ehour" -> IF h24 /\ fld.v[2] = 0 THEN F(24) ELSE F(HourOf(fld.v))
     [] OTHER -> fld
 Concrete(c) == [r \in 1..Len(Layout(c)) |-> [k \in 1..Len(Layout(c)[r]) |-> ConcreteWord(Layout(c)[r][k], c.h24)]]
+ConcreteC(c) == [r \in 1..Len(LayoutC(c)) |-> [k \in 1..Len(LayoutC(c)[r]) |-> ConcreteWord(LayoutC(c)[r][k], c.h24)]]
 \* "" or the first discrepancy of record r (index ri) against the layout
 RecordDiag(layout, ri, rec) ==
   IF ri > Len(layout) THEN "more records than the layout has"
